@@ -187,7 +187,10 @@ def task_compounds(ctx, n, depth=2):
 
 def task_nodata(ctx, n):
     E = ng.env()
-    s = st.fixed_dictionaries({"comp": ng.compound(1), "bad": st.sampled_from(E["specs"]["nodata"]),
+    nd = E["specs"]["nodata"]
+    bad = st.one_of(st.sampled_from([x for x in nd if not x[1]]), st.sampled_from([x for x in nd if x[1]]),
+                    st.sampled_from([x for x in nd if x[1]]))
+    s = st.fixed_dictionaries({"comp": ng.compound(1), "bad": bad,
                                "n": st.integers(1, 5), "density": ng.density_value(),
                                "wl": ng.wavelength_arg(max_len=3)})
     ctx.search("nodata", s, check_nodata, n)
@@ -220,16 +223,16 @@ def task_sweep_tables(ctx):
 
 def tasks(tier):
     if tier == "quick":
-        return [("compounds-a", task_compounds, dict(n=1000, depth=2)),
-                ("compounds-b", task_compounds, dict(n=1000, depth=1)),
-                ("compounds-c", task_compounds, dict(n=1000, depth=2)),
-                ("compounds-d", task_compounds, dict(n=1000, depth=3)),
-                ("compounds-e", task_compounds, dict(n=1000, depth=1)),
+        return [("compounds-a", task_compounds, dict(n=800, depth=2)),
+                ("compounds-b", task_compounds, dict(n=800, depth=1)),
+                ("compounds-c", task_compounds, dict(n=800, depth=2)),
+                ("compounds-d", task_compounds, dict(n=800, depth=3)),
+                ("compounds-e", task_compounds, dict(n=800, depth=1)),
                 ("nodata", task_nodata, dict(n=300)),
                 ("sweep-atoms-0", task_sweep_atoms, dict(part=0, parts=2)),
                 ("sweep-atoms-1", task_sweep_atoms, dict(part=1, parts=2)),
                 ("sweep-tables", task_sweep_tables, dict())]
-    out = [("compounds-%d" % k, task_compounds, dict(n=16000, depth=1 + k % 3)) for k in range(13)]
+    out = [("compounds-%d" % k, task_compounds, dict(n=12000, depth=1 + k % 3)) for k in range(13)]
     out += [("nodata", task_nodata, dict(n=5000)),
             ("sweep-atoms-0", task_sweep_atoms, dict(part=0, parts=1)),
             ("sweep-tables", task_sweep_tables, dict())]
